@@ -7,7 +7,7 @@ V = pathlib.Path("/verif")
 WT = "/tmp/seed_reconfirm_wt"
 seeds = sorted(p.name for p in (V / "seeded").iterdir() if (p / "patch.diff").exists())
 if len(sys.argv) > 1:
-    seeds = [s for s in seeds if s in sys.argv[1:]]
+    seeds = [s for s in seeds if s in sys.argv[1:] or s.split('-')[0] in sys.argv[1:]]
 head = subprocess.run(["git", "-C", "/repo", "rev-parse", "--short", "HEAD"], capture_output=True, text=True).stdout.strip()
 subprocess.run(["git", "-C", "/repo", "worktree", "remove", "--force", WT], capture_output=True)
 subprocess.run(["git", "-C", "/repo", "worktree", "add", "-q", "--detach", WT, "HEAD"], check=True)
